@@ -1181,6 +1181,14 @@ class Trimesh(Geometry3D):
 
         # create the inverse mask if not passed
         if inverse is None:
+            if mask.dtype.kind in "bi" and util.is_shape(self.faces, (-1, 3)):
+                # a face which references a removed vertex
+                # can't be re-indexed so it has to be removed
+                keep = np.zeros(len(self.vertices), dtype=bool)
+                keep[mask] = True
+                face_ok = keep[self.faces].all(axis=1)
+                if not face_ok.all():
+                    self.update_faces(face_ok)
             inverse = np.zeros(len(self.vertices), dtype=int64)
             if mask.dtype.kind == "b":
                 inverse[mask] = np.arange(mask.sum())
